@@ -9,7 +9,7 @@
 (* so that every event is judged); the driver requires that the number of  *)
 (* distinct states equals 1 + K + N, i.e. that every event was evaluated.  *)
 (***************************************************************************)
-EXTENDS TomlPrint, DepthDef, Containers, Json, IOUtils
+EXTENDS TomlPrint, SerdeModel, DepthDef, Containers, Json, IOUtils
 
 Ev == ndJsonDeserialize(IOEnv.TRACE)
 N == Len(Ev)
@@ -387,6 +387,40 @@ CheckHist(i) ==
      ELSE Report(i, IF e.ops[bad].panic THEN "hist-panic" ELSE "hist-step",
                  [kind |-> e.kind, step |-> bad, op |-> e.ops[bad].op, k |-> e.ops[bad].k, ret |-> e.ops[bad].ret]) /\ FALSE
 
+\* ---- C07 / C13 / C17: serde routes against SerdeModel.Enc ----
+\* (every conjunct is evaluated, so that each property gets its own report: sets are built eagerly)
+AllTrue(S) == S \subseteq {TRUE}
+CheckSerde(i) ==
+  LET e == Ev[i]
+      exp == Root(e.sdm)
+      main == e.enc[1]
+      encOk(g) ==
+          LET r == e.enc[g] IN
+          IF r.res = "panic" THEN Report(i, "serde-enc-panic", [route |-> r.route]) /\ FALSE
+          ELSE IF exp.st = "err" THEN
+            (IF r.res = "err" THEN TRUE ELSE Report(i, "serde-enc-unsupported-accepted", [route |-> r.route, why |-> exp.why, text |-> r.text]) /\ FALSE)
+          \* an enum variant at the document root is a documented unsupported shape: either outcome is allowed
+          ELSE IF r.res = "err" /\ RootIsStructVariant(e.sdm) THEN TRUE
+          ELSE IF r.res = "err" THEN Report(i, "serde-enc-unexpected-error", [route |-> r.route, ty |-> e.ty]) /\ FALSE
+          ELSE LET p == ParseDocument(r.text) IN
+               IF p.res = "ok" /\ SameV(exp.v, p.tree, FALSE) THEN TRUE
+               ELSE Report(i, "serde-enc-text", [route |-> r.route, text |-> r.text, valid |-> p.res, expected |-> Plain(exp.v)]) /\ FALSE
+      decOk(g) ==
+          LET r == e.dec[g] IN
+          IF r.res = "ok" /\ r.same THEN TRUE ELSE Report(i, "serde-dec", [route |-> r.route, res |-> r.res, same |-> r.same]) /\ FALSE
+      againOk == IF e.again.res = "ok" /\ e.again.text = main.text THEN TRUE ELSE Report(i, "serde-nondeterministic", "to_string twice") /\ FALSE
+      fixedOk == IF e.fixed.res = "ok" /\ e.fixed.text = main.text THEN TRUE ELSE Report(i, "serde-fixpoint", [text |-> main.text, second |-> e.fixed.text]) /\ FALSE
+      tfOk ==
+        LET t == e.try_from IN
+        IF t.res = "panic" THEN Report(i, "serde-try_from", [why |-> "panic"]) /\ FALSE
+        ELSE IF Enc(e.sdm).st # "ok" THEN (IF t.res = "err" THEN TRUE ELSE Report(i, "serde-try_from", [why |-> "unsupported shape accepted"]) /\ FALSE)
+        ELSE IF t.res = "ok" /\ SameV(Enc(e.sdm).v, t.tree, FALSE) THEN TRUE
+        ELSE Report(i, "serde-try_from", [why |-> "tree", res |-> t.res, expected |-> Plain(Enc(e.sdm).v)]) /\ FALSE
+  IN AllTrue({AllTrue({encOk(g) : g \in 1..Len(e.enc)})}
+             \cup (IF exp.st = "ok" /\ main.res = "ok"
+                   THEN {AllTrue({decOk(g) : g \in 1..Len(e.dec)}), againOk, fixedOk} ELSE {})
+             \cup {tfOk})
+
 U1Note(i) == Ev[i].ev = "parse" /\ ParseDocument(Ev[i].text).res = "u1" => PrintT(ToJson([u1 |-> i]))
 
 CheckEvent(i) ==
@@ -404,6 +438,7 @@ CheckEvent(i) ==
     [] Ev[i].ev = "api" -> CheckApi(i)
     [] Ev[i].ev = "depth" -> CheckDepth(i)
     [] Ev[i].ev = "hist" -> CheckHist(i)
+    [] Ev[i].ev = "serde" -> CheckSerde(i)
     [] OTHER -> Report(i, "unknown-event", Ev[i].ev) /\ FALSE
 
 Init == lvl = 0 /\ idx = 0
